@@ -2653,7 +2653,8 @@ INTRINSICS = {
     'regexp.QuoteMeta': i_re_quotemeta,
     'strconv.FormatInt': lambda e, st, a, i: _format_int(e, st, a, True),
     'strconv.FormatUint': lambda e, st, a, i: _format_int(e, st, a, False),
-    'github.com/grpc-ecosystem/go-grpc-middleware/util/metautils.ExtractIncoming': lambda e, st, a, i: MapV(((True, None),)),
+    # the metadata attached by metadata.NewIncomingContext (i_md_new_incoming), else none
+    'github.com/grpc-ecosystem/go-grpc-middleware/util/metautils.ExtractIncoming': lambda e, st, a, i: e.incoming_md if e.incoming_md is not None else MapV(((True, None),)),
     'github.com/google/uuid.New': i_uuid_new,
     # names of protobuf enum values only flow into log / error text
     '(github.com/openconfig/gnmi/proto/gnmi.GetRequest_DataType).String': lambda e, st, a, i: b'<DataType>',
